@@ -186,7 +186,7 @@ class Construct:
             for vref in dawgie.util.as_vref(node.get('alg').feedback()):
                 fbn = dawgie.util.vref_as_name(vref)
                 node.get('feedback').add(self._flat[fbn])
-                self._feedbacks[fbn] = node.tag
+                self._feedbacks.setdefault(fbn, set()).add(node.tag)
                 pass
             pass
         return
@@ -352,7 +352,7 @@ class Construct:
         return self._vv
 
     @property
-    def feedbacks(self) -> {str: str}:
+    def feedbacks(self) -> {str: {str}}:
         return self._feedbacks
 
     @staticmethod
